@@ -38,10 +38,33 @@ T = {
  'c13-2': ('C13', 'callable field invoked twice from one site with different callables', 'ops/Vm::op_invoke/post', ''),
  'c13-3': ('C13', 'class factory applied twice in one inheritance chain (super site keyed by receiver class)', 'ops/Vm::op_super_invoke/post', ''),
  'c13-4': ('C13', 'invoke site sees a base-class instance first, then an overriding subclass', 'ops/InlineCache::get_invoke_cache/post', ''),
- 'c20-1': ('C20', 'a full sweep that retains an already promoted object', None, 'see DESIGN.md §11 (gc harness o20_4p)'),
- 'c20-2': ('C20', 'a live list with len != cap (ObjectHandle::size from len)', None, 'see DESIGN.md §11 (heap harness o20_1_alloc_drop_list)'),
+ 'c20-1': ('C20', 'a full sweep that retains an already promoted object', 'kani:gc/o20_4p_promoted_then_full_exact', 'caught after the promoted-then-full harness was added'),
+ 'c20-2': ('C20', 'a live list with len != cap (ObjectHandle::size from len)', 'kani:heap/o20_1_alloc_drop_list', 'caught after the list alloc/drop harness was added'),
  'c20-3': ('C20', 'an Instance being freed (dealloc with ObjHeader layout)', None, 'instance construction needs Class (hashbrown): CBMC ran out of memory; NOT decided'),
- 'c20-4': ('C20', 'a unique vector with spare capacity (size from len)', None, 'see DESIGN.md §11 (heap harness o20_3_unique_vector_handle)'),
+ 'c20-4': ('C20', 'a unique vector with spare capacity (size from len)', 'kani:heap/o20_3_unique_vector_handle', 'caught after the handle harness + RawUniqueVectorHandle re-export were added'),
+ # ---- third wave -------------------------------------------------------------------------------------------------------
+ 'c17-1': ('C17', 'selected-symbol import from a module with a private declaration before the exported one', 'module/Module::get_exported_symbol_by_name/post', 'first run UNDECIDED (exact-text R4 rewrite, ModClass stub lacked get_field_index); caught after R4g (generic Option-combinator rewrite) and the stub method'),
+ 'c17-2': ('C17', 'a write to the first undeclared module slot (slot == len)', 'module/Module::set_symbol_by_slot/post+pre', ''),
+ 'c17-3': ('C17', 'a private name imported by name from a module that is already cached', None, 'op_import_symbol is not under contract: NOT decided'),
+ 'c17-4': ('C17', 'two modules whose paths differ only in the package segment', None, 'full_import_path (string building) is outside reach: NOT decided'),
+ 'c10-1': ('C10', 'clear()/pop through a stale alias of a list that grew', 'kani:coll/o10_stale_pop', 'missed by the first run (harnesses only used un-forwarded lists); caught after the allocator-free forwarded-list constructor and the stale-alias harnesses'),
+ 'c10-2': ('C10', 'insert through a stale alias (forwarding pointer clobbered / list splits)', 'kani:coll/o10_stale_insert (thorough)', 'caught after the stale-alias harnesses'),
+ 'c10-3': ('C11', 'remove(0) on an empty list', 'kani:coll/o11_remove (thorough; counterexample replayed natively)', ''),
+ 'c10-4': ('C11', 'a NaN or infinite list index', 'kani:lib/o11_list_determine_index (counterexample replayed natively)', 'missed by the first run (only the tuple variant was harnessed); caught after the list variant was added'),
+ 'c10-5': ('C10', 'index assignment through a stale alias', 'kani:coll/o10_stale_index_set', 'caught after the stale-alias harnesses'),
+ 'c05-1': ('C05', 'a threshold collection triggered by a non-object allocation (the in-flight value is not rooted)', 'kani:gc/o05_5_inflight_alloc_survives (added; see DESIGN.md §12)', 'missed by the first run'),
+ 'c05-2': ('C09', 'a promoted live string, a nursery collection, then the same characters rebuilt', None, 'the call ORDER inside sweep_obj_nursery / collect_garbage is not under contract (sweep_intern_cache itself is): NOT decided'),
+ 'c05-3': ('C05', 'a captured local whose only reference is the stack slot holding the box', 'gctrace/Trace for ObjectRef::trace/post and kani:trace/o05_2_dispatch_lybox', ''),
+ 'c05-4': ('C05', 'an instance that is the only reference to its class', 'gctrace/Trace for Array::trace/post', 'missed by the first run (per-kind trace bodies were not decided); caught after the gctrace unit'),
+ 'c05-5': ('C05', 'a fiber blocked on a receive during a collection', 'gctrace/Trace for ChannelQueue::trace/post', 'missed by the first run; caught after the gctrace unit (generated contract: every GC-typed field is traced)'),
+ 'c15-1': ('C15', 'a run of 256 or more Drop instructions', 'peephole/drop/overflow', ''),
+ 'c15-2': ('C15', 'a try body of more than 65535 bytes', 'bytecode/ByteCodeEncoder::encode/pre', ''),
+ 'c15-3': ('C15', 'the token `1e` (scientific notation without digits)', None, 'scanner.rs is outside reach: NOT decided'),
+ 'c15-4': ('C15', 'a map-literal key that is the sole reference to an enclosing local', None, 'resolver.rs is outside reach: NOT decided'),
+ 'c16-1': ('C16', 'a default-arity native method called with exactly max+1 arguments', 'native/Native::check_if_valid_call/post', ''),
+ 'c16-2': ('C16', 'a closure call at exactly 255 live frames', 'calls/Vm::call_closure/post', 'the original patch (== to >) no longer applies after fix ebf4d1a (D12, found while processing this wave); patch.diff is the same change rebased (>= to >), the original is kept as patch.before-fix-ebf4d1a.diff'),
+ 'c16-3': ('C16', 'class declared inside a function inheriting from a boxed non-class', 'calls/Vm::op_inherit/pre (to_obj / to_class preconditions)', 'missed by the first run (op_inherit not under contract); caught after it was added'),
+ 'c16-4': ('C16', 'max(1, 7, "3"): a native whose declared parameter kind is weaker than what its body unwraps', None, 'the ~150 native bodies are not under contract (only the gate in front of them): NOT decided'),
 }
 for sid, (prop, needs, caught, note) in T.items():
   d = os.path.join(HERE, 'seeded', sid)
